@@ -3,7 +3,7 @@
 and seeded/RESULTS.md from /verif/seeded/*/meta.json."""
 import json, glob, re, subprocess
 rows = []; stats = {}
-for d in sorted(glob.glob("/verif/seeded/*/")):
+for d in sorted(glob.glob("/verif/seeded/C*/")):
     m = json.load(open(d + "meta.json"))
     res = m.get("results", [])
     fmt = lambda r: "-" if not r else (", ".join(r["detected_by"]) if r["detected_by"] else "**missed**")
